@@ -134,15 +134,16 @@ def gen_reshape(ctx):
         for old, new in pairs:
             a = _data(old)
             x = _ph("x", old)
-            for order in ("C", "F"):
+            # every admissible spelling of the order: the API accepts it case-insensitively
+            for order in (("C", "F", "c", "f") if rng.random() < 0.15 else ("C", "F")):
                 try:
                     node = pt.reshape(x, new, order=order)
                 except Exception as e:   # constructor rejects: not a lowering case
                     continue
                 yield LCase("reshape", {"old": old, "new": new, "order": order},
                             node, {"x": a}, np.reshape(a, new, order=order),
-                            f"(lower reshape {order} {ser.shape(old)} {ser.shape(new)})",
-                            f"(spec reshape {order} {ser.shape(new)} {ser.shape(old)} {ser.vals(a)})")
+                            f"(lower reshape {order.upper()} {ser.shape(old)} {ser.shape(new)})",
+                            f"(spec reshape {order.upper()} {ser.shape(new)} {ser.shape(old)} {ser.vals(a)})")
 
 
 def _slice_tok(v):
